@@ -362,7 +362,8 @@ func (parser *Parser) ParseExpression(depth int) (res Sexp, err error) {
 			}
 			return exp, err
 		case TokenRCurly:
-			_, _ = lexer.GetNextToken()       // dicard '}'
+			// discard the skipped comments and the '}' itself
+			lexer.tokens = lexer.tokens[extra:]
 			return MakeHash(nil, "hash", env) // return empty hash
 		case TokenString:
 			// peek ahead past the string to see if we have ':' TokenColonOperator
